@@ -5,7 +5,7 @@ LEVEL = "model_checking"
 def run(ctx):
     for fam in ['sub']:
         sqlprop.laws(ctx, f"SqlLaws_{fam}_{ctx.tier}.cfg")
-    sqlprop.run_sql_property(ctx, corpus=['subq'], seeded=[('single', {'subq': True, 'null_p': 0.3, 'dom': 2, 'corr': False})], quick_n=400, seeded_quick=250,
+    sqlprop.run_sql_property(ctx, corpus=['subq', 'subq2'], seeded=[('single', {'subq': True, 'null_p': 0.3, 'dom': 2, 'corr': False})], quick_n=400, seeded_quick=250,
         rule='EXISTS / NOT EXISTS / IN / NOT IN / scalar subqueries, correlated and uncorrelated, in WHERE and SELECT, NULLs on either side, empty results, duplicate correlation values.')
 
 def replay(ctx, obj):
